@@ -15,6 +15,7 @@ files exist and what they contain).  A case line is
         re      regexp.Compile(v) succeeds                  kver    parseKafkaVersion(v) does not panic
         tmpl    template ParseFiles(v) succeeds             file    os.ReadFile(v) succeeds
         pair    tls.LoadX509KeyPair(cert, key) succeeds     mail    ValidateHostList([host + ":" + port])  (F:mail:<hexhost>:<port>:<b>)
+        capem   file readable and holds a PEM certificate (helpers/zookeeper.go:66-74)
     (the probe materialises file/tmpl/pair facts as real files in its scratch directory and ignores the others: the real
     code computes those itself, so a wrong entry of the tables below shows up as a model/implementation mismatch)
 
@@ -52,10 +53,11 @@ KVER = {                # parseKafkaVersion(v) returns            core/internal/
 }
 
 
+MAILHOST = {"127.0.0.1": True, "smtp.example.com": True, "": False, "mail host": False, "-smtp": False}
+
+
 def mail_ok(host, port):    # ValidateHostList([]string{fmt.Sprintf("%s:%v", host, port)})   notifier/email.go:65-73
-    table = {("127.0.0.1", 25): True, ("127.0.0.1", 0): True, ("smtp.example.com", 587): True,
-             ("", 25): False, ("mail host", 25): False, ("-smtp", 25): False, ("", 0): False}
-    return table[(host, port)]
+    return MAILHOST[host]   # any integer port passes strconv.Atoi
 
 
 # file kinds: "tmpl" parses, "badtmpl" exists but does not parse, "pem" certificate/key material, "junk" readable non-PEM
@@ -144,11 +146,13 @@ class Cfg:
                 add("file", [hx(v)], self.readable(v))
             elif parts[0] == "tls" and last == "cafile" and t == "s":
                 add("file", [hx(v)], self.readable(v))
+                add("capem", [hx(v)], self.files.get(v) == "pem")
             elif parts[0] == "client-profile" and last == "kafka-version" and t == "s":
                 add("kver", [hx(v)], KVER[v])
         # consumers without a zookeeper-path key use "" ; the empty template path never parses
         add("zkcons", [hx("")], ZKCONS[""])
         add("tmpl", [hx("")], False)
+        add("capem", [hx("")], False)
         # TLS profiles: certificate/key pair facts (and the files themselves)
         for prof in sorted({k.split(".")[1] for k in self.kv if k.startswith("tls.") and k.count(".") >= 2}):
             cert, key = self.gets("tls.%s.certfile" % prof), self.gets("tls.%s.keyfile" % prof)
@@ -267,8 +271,9 @@ BASES = {
 E = []
 
 
-def edit(eid, kind, inv, on, ops, cite, what):
-    E.append({"id": eid, "kind": kind, "inv": inv, "on": on, "ops": ops, "cite": cite, "what": what})
+def edit(eid, kind, inv, on, ops, cite, what, gate=None):
+    """gate: known-finding key; the edit is only generated once that key is registered in known_findings.json"""
+    E.append({"id": eid, "kind": kind, "inv": inv, "on": on, "ops": ops, "cite": cite, "what": what, "gate": gate})
 
 
 # zookeeper -----------------------------------------------------------------------------------------------------
@@ -290,6 +295,23 @@ edit("zk-servers-two", "preserving", False, ["notify"], [("l", "zookeeper.server
      "core/internal/helpers/validation.go:114-151", "two well-formed zookeeper servers (IPv4 and IPv6)")
 edit("zk-timeout", "preserving", False, ["notify"], [("i", "zookeeper.timeout", 10)],
      "core/internal/zookeeper/coordinator.go:59", "explicit zookeeper timeout")
+
+# zookeeper.tls: read by the coordinator's Start (start-time failure: Start returns 1, ConfigurationValid stays true)
+edit("zk-tls-ok", "preserving", False, ["notify"], [("s", "zookeeper.tls", "t1")],
+     "core/internal/helpers/zookeeper.go:46-61", "zookeeper over TLS with a usable profile")
+edit("zk-tls-unknown-profile", "start-time", False, ["notify"], [("s", "zookeeper.tls", "nosuch")],
+     "core/internal/helpers/zookeeper.go:65-69; core/internal/zookeeper/coordinator.go:85-89",
+     "zookeeper.tls names a profile that does not exist: the (empty) CA file cannot be read when the coordinator starts")
+edit("zk-tls-ca-unreadable", "start-time", False, ["notify"],
+     [("s", "zookeeper.tls", "tz"), ("s", "tls.tz.cafile", "@/missing.pem")],
+     "core/internal/helpers/zookeeper.go:65-69; core/internal/zookeeper/coordinator.go:85-89", "zookeeper TLS CA file cannot be read")
+edit("zk-tls-ca-not-pem", "start-time", False, ["notify"],
+     [("s", "zookeeper.tls", "tz"), ("s", "tls.tz.cafile", "@/junk.txt")],
+     "core/internal/helpers/zookeeper.go:71-74; core/internal/zookeeper/coordinator.go:85-89", "zookeeper TLS CA file holds no certificate")
+edit("zk-tls-key-unreadable", "start-time", False, ["notify"],
+     [("s", "zookeeper.tls", "tz"), ("s", "tls.tz.cafile", "@/ca.pem"), ("s", "tls.tz.certfile", "@/cert.pem"),
+      ("s", "tls.tz.keyfile", "@/missing.pem")],
+     "core/internal/helpers/zookeeper.go:80-86; core/internal/zookeeper/coordinator.go:85-89", "zookeeper TLS key file cannot be read")
 
 # storage -------------------------------------------------------------------------------------------------------
 edit("storage-two-modules", "module-count", True, ["core", "notify", "kafka"],
@@ -481,6 +503,16 @@ edit("consumer-zk-denylist-bad", "pattern", True, ["kafka"], [("s", "consumer.z1
 edit("consumer-allowlist-good", "preserving", False, ["kafka"], [("s", "consumer.k1.group-allowlist", "^ok")],
      "core/internal/consumer/kafka_client.go:125-133", "kafka consumer group-allowlist that compiles")
 
+# viper structure (outside the model: names with dots).  viper.IsSet("cluster." + name) is true for "c1.servers".
+edit("consumer-dotted-cluster", "reference", True, ["kafka"], [("s", "consumer.k1.cluster", "c1.servers")],
+     "core/internal/consumer/coordinator.go:87-89; core/internal/consumer/kafka_client.go:97-100",
+     "consumer names the cluster \"c1.servers\": no such cluster, but the key cluster.c1.servers is set",
+     gate="C19:dotted-reference")
+edit("cluster-dotted-profile", "reference", True, ["kafka"], [("s", "cluster.c1.client-profile", "p1.tls")],
+     "core/internal/helpers/sarama.go:70-72",
+     "cluster names the client-profile \"p1.tls\": no such profile, but the key client-profile.p1.tls is set",
+     gate="C19:dotted-reference")
+
 EDITS = {e["id"]: e for e in E}
 assert len(EDITS) == len(E)
 
@@ -502,10 +534,11 @@ def parse_head(line):
     return f[1], ([] if f[2] == "-" else f[2].split("+"))
 
 
-def all_cases(rng, thorough, n_pairs=300):
-    """bases, every single edit on every base, pairs (all in the thorough tier, a sample otherwise)."""
+def all_cases(rng, thorough, n_pairs=300, registered=()):
+    """bases, every single edit on every base, pairs (all in the thorough tier, a sample otherwise).
+    registered = known-finding keys present in known_findings.json (gated edits are generated only then)."""
     cases = []
-    ids = [e["id"] for e in E]
+    ids = [e["id"] for e in E if e["gate"] is None or e["gate"] in registered]
     for b in BASES:
         cases.append(case_line(b, []))
     for b in BASES:
